@@ -158,6 +158,9 @@ class Msg(abc.ABC):
 	def validate(self):
 		''' Validate the message fields (throws ValueError). '''
 
+		if self.ver is None:
+			raise ValueError("TRXD header version is not set")
+
 		if not self.ver in self.KNOWN_VERSIONS:
 			raise ValueError("Unknown TRXD header version %d" % self.ver)
 
